@@ -209,38 +209,40 @@ Print Assumptions C18_misorientation_distance_matrix.
 
 (* ====================== 4. Orientation.angle_with_outer / _dot_outer_dask ====================== *)
 
-(* what the lazy path returns, all shapes: indexed other.shape ++ self.shape,
-   element (j ++ i) = max_s |(other_j self_i^-1) . s| with no flag looked at *)
+(* what the lazy path returns, all shapes (any numbers of axes): indexed
+   self.shape ++ other.shape, element (i ++ j) = max_s |(other_j self_i^-1) . s|
+   with no improper flag looked at *)
 Theorem C18_orientation_lazy_characterised : forall k ss so (X Y S : list rot) i j,
   (0 < k)%nat -> length X = size ss -> length Y = size so -> valid ss i -> valid so j ->
   let r := ori_dot_outer_lazy ROps k ss so X Y S in
-  fst r = so ++ ss /\ length (snd r) = size (so ++ ss) /\
-  aget 0 (so ++ ss) (snd r) (j ++ i)
+  fst r = ss ++ so /\ length (snd r) = size (ss ++ so) /\
+  aget 0 (ss ++ so) (snd r) (i ++ j)
   = sym_dot_lazy ROps S (qmul ROps (fst (aget (zq ROps, false) so Y j))
                                    (qconj ROps (fst (aget (zq ROps, false) ss X i)))).
 Proof. exact ori_lazy_char. Qed.
 Print Assumptions C18_orientation_lazy_characterised.
 
-(* what the eager path returns when both operands have the same number of axes *)
+(* what the eager path returns, all shapes: same layout, flags used *)
 Theorem C18_orientation_eager_characterised : forall ss so (X Y S : list rot) i j,
-  length ss = length so -> length X = size ss -> length Y = size so -> valid ss i -> valid so j ->
+  length X = size ss -> length Y = size so -> valid ss i -> valid so j ->
   let r := ori_dot_outer_eager ROps ss so X Y S in
-  fst r = ss ++ so /\
+  fst r = ss ++ so /\ length (snd r) = size (ss ++ so) /\
   aget 0 (ss ++ so) (snd r) (i ++ j)
   = sym_dot_eager ROps S (rmul ROps (aget (zq ROps, false) so Y j) (rinv ROps (aget (zq ROps, false) ss X i))).
 Proof. exact ori_eager_char. Qed.
 Print Assumptions C18_orientation_eager_characterised.
 
-(* FULL clause: angle_with_outer(lazy=True) = angle_with_outer(lazy=False).
-   REFUTED (layout): the lazy result is indexed other.shape ++ self.shape *)
-Theorem C18_angle_with_outer_lazy_layout_refuted :
-  exists k ss so (X Y S : list rot),
-    (0 < k)%nat /\ length X = size ss /\ length Y = size so /\ length ss = length so /\
-    fst (awo_lazy ROps k ss so X Y S) <> fst (awo_eager ROps ss so X Y S).
-Proof. exact awo_lazy_layout_refuted. Qed.
-Print Assumptions C18_angle_with_outer_lazy_layout_refuted.
+(* layout clause for angle_with_outer: both modes return self.shape ++ other.shape
+   for every pair of shapes, every chunk size, all operands *)
+Theorem C18_angle_with_outer_layout : forall k ss so (X Y S : list rot),
+  fst (awo_lazy ROps k ss so X Y S) = ss ++ so /\ fst (awo_eager ROps ss so X Y S) = ss ++ so /\
+  length (snd (awo_lazy ROps k ss so X Y S)) = size (ss ++ so) /\
+  length (snd (awo_eager ROps ss so X Y S)) = size (ss ++ so).
+Proof. exact awo_layout. Qed.
+Print Assumptions C18_angle_with_outer_layout.
 
-(* REFUTED (improper flags): an improper `other` under a proper group, and a
+(* FULL clause: angle_with_outer(lazy=True) = angle_with_outer(lazy=False) for all operands.
+   REFUTED (improper flags): an improper `other` under a proper group, and a
    proper pair under a group with an improper element and no inversion centre
    ({1, m_z}): eager angle pi, lazy angle 0 *)
 Theorem C18_angle_with_outer_lazy_improper_refuted :
@@ -251,18 +253,22 @@ Theorem C18_angle_with_outer_lazy_improper_refuted :
 Proof. exact awo_lazy_improper_refuted. Qed.
 Print Assumptions C18_angle_with_outer_lazy_improper_refuted.
 
-(* OUTSIDE THE FINDINGS (same number of axes, unit quaternions, no improper flag
-   on `other` nor on the symmetry elements; flags of self are dropped by both
-   modes): the lazy result is the eager result with the two groups of axes
-   exchanged -- same values, for every chunk size *)
-Theorem C18_angle_with_outer_outside_finding : forall k ss so (X Y S : list rot) i j,
-  (0 < k)%nat -> length ss = length so -> length X = size ss -> length Y = size so ->
+(* OUTSIDE THE FINDING (unit quaternions, no improper flag on `other` nor on the
+   symmetry elements; flags of self are dropped by both modes): lazy = eager,
+   shape and values, for every chunk size and every pair of shapes *)
+Theorem C18_angle_with_outer_outside_finding : forall k ss so (X Y S : list rot),
+  (0 < k)%nat -> length X = size ss -> length Y = size so ->
   all_unit X -> all_unit Y -> all_unit S -> all_proper Y -> all_proper S ->
-  valid ss i -> valid so j ->
-  aget (ang ROps 0) (so ++ ss) (snd (awo_lazy ROps k ss so X Y S)) (j ++ i)
-  = aget (ang ROps 0) (ss ++ so) (snd (awo_eager ROps ss so X Y S)) (i ++ j).
-Proof. exact awo_lazy_is_swapped_eager. Qed.
+  awo_lazy ROps k ss so X Y S = awo_eager ROps ss so X Y S.
+Proof. exact awo_lazy_eq_eager. Qed.
 Print Assumptions C18_angle_with_outer_outside_finding.
+
+(* Orientation.get_distance_matrix(lazy) = angle_with_outer(self, self, lazy) *)
+Theorem C18_orientation_distance_matrix_lazy : forall k s (X S : list rot),
+  (0 < k)%nat -> length X = size s -> all_unit X -> all_unit S -> all_proper X -> all_proper S ->
+  awo_lazy ROps k s s X X S = awo_eager ROps s s X X S.
+Proof. exact odm_lazy_eq_eager. Qed.
+Print Assumptions C18_orientation_distance_matrix_lazy.
 
 (* ====================== 5. whole array vs element by element ====================== *)
 
